@@ -813,20 +813,20 @@ def run(ctx):
         aimpl = ctx.harness("harness/c/c31_mjb.c", "c31_mjb", variant=av, extra=("-DC31_SANITIZE",), deps=["harness/mjbuild.h"])
         if aimpl:
             al, am = list(rules) + ["oracle 1"], [None] * (len(rules) + 1)
-            for k, d, dump, img in models[:4]:
+            for k, d, dump, img in models[:3]:
                 al.append("model %s | %s" % (d, dump))
                 am.append(None)
                 idx = [i for i, mt in enumerate(meta) if mt and mt[0] in ("corrupt", "trunc") and mt[1] == k]
                 crafted = [i for i in idx if meta[i][0] == "corrupt" and meta[i][2]["cls"] in ("nnames_map", "header")]
                 rest = [i for i in idx if i not in set(crafted) and not lines[i].startswith("sweep")]
                 ctx.rng.shuffle(rest)
-                for i in crafted + rest[:500]:
+                for i in crafted + rest[:250]:
                     al.append(lines[i])
                     am.append(meta[i])
-                step = max(1, img.total // 300)
+                step = max(1, img.total // 150)
                 al.append("sweep 0 %d %d" % (img.total, step))
                 am.append(("trunc", k))
-            env = dict(os.environ, ASAN_OPTIONS="detect_leaks=1:exitcode=77:allocator_may_return_null=1", UBSAN_OPTIONS="print_stacktrace=0")
+            env = dict(os.environ, ASAN_OPTIONS="detect_leaks=1:exitcode=77:allocator_may_return_null=1:symbolize=0", UBSAN_OPTIONS="print_stacktrace=0")
             rc, outs, err = ctx.run_lines([aimpl], al, env=env, timeout=3000)
             ctx.extra["asan_ops"] = len(al)
             if rc != 0 or len(outs) != len(al):
